@@ -297,6 +297,78 @@ fn builds(ctx: &Ctx, base: u64, u: usize, max_len: usize) {
     ctx.add_traces(t);
 }
 
+/// Maps with many regions: insert at every position (gaps, adjacent, overlapping, enclosing) and
+/// remove every region, with the parent map re-checked after each step.
+fn many_regions(ctx: &Ctx, n: usize) {
+    let mut serial = 0u8;
+    let base = 0x10_0000u64;
+    // regions of 2 bytes at base + 4*i  (holes of 2 bytes between them)
+    let mut regs: Vec<(u64, u64, usize, u8)> = Vec::new();
+    let mut arcs = Vec::new();
+    for i in 0..n {
+        let iv = (base + 4 * i as u64, 2u64);
+        let r = new_region(iv, &mut serial);
+        regs.push((iv.0, iv.1, r.as_ptr() as usize, serial));
+        arcs.push(r);
+    }
+    let map = match GuestMemoryMmap::from_arc_regions(arcs) {
+        Ok(m) => m,
+        Err(e) => {
+            ctx.fail("C10/many-regions/build", &format!("{} regions: {:?}", n, e), json!({"n": n}));
+            return;
+        }
+    };
+    let live = Rc::new(Live { map, expect: Expect { regs: regs.clone() }, parent: None, how: format!("from_arc_regions of {} regions", n) });
+    check_lineage(ctx, &live, "build");
+    let state: Vec<Iv> = regs.iter().map(|r| (r.0, r.1)).collect();
+    let mut t = 0u64;
+    for pos in 0..(4 * n as u64 + 2) {
+        for len in [1u64, 2, 3, 6] {
+            let iv = (base - 1 + pos, len);
+            let overlap = state.iter().any(|s| intersects(*s, iv));
+            let r = new_region(iv, &mut serial);
+            let (ptr, tag) = (r.as_ptr() as usize, serial);
+            let how = format!("insert_region({:?}) into a map of {} regions", iv, n);
+            t += 1;
+            match (live.map.insert_region(r), overlap) {
+                (Ok(m2), false) => {
+                    let mut e = regs.clone();
+                    e.push((iv.0, iv.1, ptr, tag));
+                    e.sort();
+                    let next = Rc::new(Live { map: m2, expect: Expect { regs: e }, parent: Some(live.clone()), how: how.clone() });
+                    check_lineage(ctx, &next, &how);
+                }
+                (Ok(_), true) => ctx.fail("C10/many-regions/insert_region/overlap-accepted", &how, json!({"n": n, "insert": iv})),
+                (Err(e), false) => ctx.fail("C10/many-regions/insert_region/valid-refused", &format!("{}: {:?}", how, e), json!({"n": n, "insert": iv})),
+                (Err(_), true) => {}
+            }
+        }
+    }
+    for i in 0..n {
+        for (b, sz) in [(regs[i].0, 2u64), (regs[i].0, 1), (regs[i].0 + 1, 2), (regs[i].0 + 1, 1)] {
+            let how = format!("remove_region({:#x}, {}) from a map of {} regions", b, sz, n);
+            t += 1;
+            match (live.map.remove_region(GuestAddress(b), sz), (b, sz) == (regs[i].0, 2)) {
+                (Ok((m2, removed)), true) => {
+                    if removed.start_addr().0 != regs[i].0 || removed.as_ptr() as usize != regs[i].2 {
+                        ctx.fail("C10/many-regions/remove_region/wrong-handle", &how, json!({"n": n, "remove": (b, sz)}));
+                    }
+                    let mut e = regs.clone();
+                    e.remove(i);
+                    let next = Rc::new(Live { map: m2, expect: Expect { regs: e }, parent: Some(live.clone()), how: how.clone() });
+                    check_lineage(ctx, &next, &how);
+                }
+                (Ok(_), false) => ctx.fail("C10/many-regions/remove_region/no-exact-match-accepted", &how, json!({"n": n, "remove": (b, sz)})),
+                (Err(e), true) => ctx.fail("C10/many-regions/remove_region/exact-match-refused", &format!("{}: {:?}", how, e), json!({"n": n})),
+                (Err(_), false) => {}
+            }
+        }
+    }
+    ctx.add_transitions(t);
+    ctx.add_traces(t);
+    ctx.add_states(1);
+}
+
 #[cfg(not(feature = "xen"))]
 fn top_of_address_space(ctx: &Ctx) {
     use vm_memory::MmapRegion;
@@ -335,6 +407,9 @@ pub fn run(tier: Tier, replay: Option<String>) -> i32 {
     for base in [0u64, 0x1_0000_0000 - 3, u64::MAX - u as u64] {
         explore(&ctx, base, u);
         builds(&ctx, base, u.min(5), 3);
+    }
+    for n in [9usize, 16, 17, 33, 65] {
+        many_regions(&ctx, n);
     }
     #[cfg(not(feature = "xen"))]
     top_of_address_space(&ctx);
